@@ -8,8 +8,14 @@ open Hv.BlockStore Driver.BStor
     prefix of what was written and contain everything that was durable; the append after the
     recovery is readable. -/
 def flagImg (s : DS) (ev : Eval) (i _j _k : Nat) : String :=
-  let syn := s.syncedAt i
-  let okC := isPrefixOf syn ev.cEnts && isPrefixOf ev.cEnts s.wr
+  -- state-based (a compaction rewrites the file with the live entries: the entry lists are no prefixes any
+  -- more, the states still are): the recovered state is that of some prefix of what was written, and that
+  -- prefix is no shorter than the shortest one that gives the state loadable at the last completed fsync
+  let dState := Index.replay [] (s.syncedAt i)
+  let ms := List.range (s.wr.length + 1)
+  let stOf := fun m => Index.replay [] (s.wr.take m)
+  let mD := (ms.find? fun m => sameIndex (stOf m) dState).getD 0
+  let okC := ev.lText != "err-load" && ms.any fun m => m ≥ mD && sameIndex (stOf m) ev.cState
   let f1 := if okC then "" else
     (if ev.lText == "err-load" then "\t#F:C02-torn-payload-load-error" else "\t#F:C02-crash-loses-synced-data")
   let okA := sameIndex ev.aState (Index.put ev.cState 9000 77)
@@ -23,10 +29,11 @@ def hooks : Hooks where
   flagLoad := fun _ _ => ""
 
 def cfgOfArgs (kv : List (String × String)) : Cfg :=
-  { r := ⟨boolArg kv "shortHeaderIsEOF", boolArg kv "tornDataIsEOF", false⟩,
+  { r := ⟨boolArg kv "shortHeaderIsEOF", boolArg kv "tornDataIsEOF", false, boolArg kv "zeroTailIsEOF"⟩,
     syncFsyncs := boolArg kv "syncFsyncs", closeFsyncs := boolArg kv "closeFsyncs",
     truncatesTornTail := boolArg kv "truncatesTornTail",
-    loadCleansTemp := true, rmTempLocked := true, rmTempFromIndex := true, rmTempCompactor := true }
+    loadCleansTemp := true, rmTempLocked := true, rmTempFromIndex := true, rmTempCompactor := true,
+    restartsZeroHeader := boolArg kv "openCutsZeroTail", sparesMidFileDamage := boolArg kv "openSparesMidFileDamage" }
 
 def run (args : List String) : IO UInt32 := do
   let kv := parseArgs args
